@@ -808,3 +808,49 @@ def rule_inner_tree_passed_through(model: Model, rule_id: str = 'C07-R7') -> Rul
                                "the inner converter's error tree is rebuilt before it is reported (another expectation, another value): "
                                "what the inner type says about the failure (the tag it looked for, the offending sub-value) is lost")
     return r
+
+
+def rule_children_not_overwritten(model: Model, rule_id: str = 'C07-R8') -> RuleResult:
+    """Within one element (one loop iteration) of a diagnostic pass, two reports stored under the same key cannot both be stored: the
+    later one would replace the earlier one, and a rejected part of the element disappears from the tree."""
+    from .pairs import Accumulators
+    r = RuleResult(rule_id, 'no child of an error node is overwritten by a second report for the same element', floor=2)
+    zone = conversion_zone(model)
+    for cls in family(model):
+        for f in zone[cls.qualname]:
+            if 'collect_errors' not in f.name or not isinstance(f.node, ast.FunctionDef):
+                continue
+            cfg = cfg_of(model, f)
+            nz = Normalizer(model, f, cfg)
+            acc = Accumulators(model, f, cfg)
+            for name, fills in acc.fills.items():
+                keyed = [(n, nz.expr(k, n)) for (n, _st, k, _v) in fills if k is not None and n.loop_of]
+                for i, (n1, k1) in enumerate(keyed):
+                    for (n2, k2) in keyed[i + 1:]:
+                        if k1 != k2 or n1 is n2 or not (set(map(id, n1.loop_of)) & set(map(id, n2.loop_of))):
+                            continue
+                        r.instances += 1
+                        r.analysed.add(f.qualname)
+                        loop_ids = set(map(id, n1.loop_of)) & set(map(id, n2.loop_of))
+                        heads = {x.id for x in cfg.nodes if x.kind == 'iter' and id(x.ast) in loop_ids}
+
+                        def reaches(a: Node, b: Node) -> bool:
+                            seen_, todo_ = set(), [m for (_lb, m) in a.succ]
+                            while todo_:
+                                x = todo_.pop()
+                                if x.id in seen_ or x.id in heads:
+                                    continue
+                                seen_.add(x.id)
+                                if x is b:
+                                    return True
+                                todo_.extend(m for (_lb, m) in x.succ)
+                            return False
+                        both = reaches(n1, n2) or reaches(n2, n1)
+                        r.sample({'function': f.qualname, 'children': name, 'key': k1, 'both fills in one iteration': both})
+                        if both:
+                            r.fail(f.qualname, f"the child under {k1} is stored twice for one element", f.loc(n2.ast if n2.ast is not None else f.node),
+                                   "when both reports apply (a mapping entry whose key and value are both rejected) the second replaces "
+                                   "the first: the rejected key is missing from the error tree and from the message")
+                        else:
+                            r.ok()
+    return r
